@@ -24,7 +24,7 @@ Step(e) ==
     \/ e.op = "finish"    /\ Finish(e.ok)
     \/ e.op = "get"       /\ Get(e.i, e.r, e.how, PanicOK)
     \/ e.op = "get2"      /\ Get2(e.i, e.r, e.how, PanicOK)
-    \/ e.op = "get_block" /\ GetBlock(e.b, e.bs, e.ok, e.out)
+    \/ e.op = "probes"    /\ Probes(e.g, PanicOK)
     \/ e.op = "len"       /\ LenIs(e.n)
     \/ e.op = "readback"  /\ ReadBack(e.out, e.n)
     \/ e.op = "readback2" /\ ReadBack2(e.out)
@@ -38,7 +38,9 @@ TraceNext ==
        THEN seq' = <<>> /\ built' = FALSE /\ subj' = e /\ kf' = kf
        ELSE /\ subj' = subj
             /\ IF UseKF /\ \E id \in KnownIds : DevApplies(id, e, subj)
-               THEN \E id \in KnownIds : KnownDeviation(id, e, subj) /\ kf' = kf \cup {id}
+               THEN (* one deviation, chosen deterministically: no branching of the validation *)
+                    LET id == CHOOSE x \in KnownIds : DevApplies(x, e, subj) IN
+                    KnownDeviation(id, e, subj) /\ kf' = kf \cup {id}
                ELSE Step(e) /\ kf' = kf
 
 TraceSpec == TraceInit /\ [][TraceNext]_vars
